@@ -87,6 +87,7 @@ func runC13(p *core.Prog, r *core.Report) {
 	// the result is pushed by digest when no tag is given: in a layout that push must not replace the
 	// untagged entries of other images, or the source is swept by the next collection (shared with C06.R9)
 	c06R9(p, r, "C13.R7")
+	c13R8(p, r)
 }
 
 func c13R1(p *core.Prog, r *core.Report) {
@@ -655,4 +656,77 @@ func storesNonEmptyData(list []ast.Stmt) bool {
 		})
 	}
 	return found
+}
+
+// c13R8: the diff-id is the digest of what the compressor reads. Where a function of package mod tees
+// a stream into a digester and the teed stream (possibly through further stages) ends up in
+// archive.Compress, the tee is the compressor's direct input. A stage in between (a decompressor for
+// inputs that may already be compressed) makes the digester see bytes the layer does not consist of:
+// the layer's descriptor is right, the diff-id recorded in every config is not.
+func c13R8(p *core.Prog, r *core.Report) {
+	const rule = "C13.R8"
+	r.Rule(rule, "the uncompressed digest is taken at the compressor's input: in package mod, when the reader handed to archive.Compress derives from an io.TeeReader into a digester, it is that tee itself, with no other stage between them (the diff-id would be the digest of something other than the uncompressed layer)", 0)
+	isReader := func(t types.Type) bool {
+		n, ok := t.(*types.Named)
+		return ok && n.Obj().Pkg() != nil && n.Obj().Pkg().Path() == "io" && (n.Obj().Name() == "Reader" || n.Obj().Name() == "ReadCloser" || n.Obj().Name() == "ReadSeeker")
+	}
+	isHashTee := func(c *ssa.Call) bool {
+		f := core.Callee(c)
+		if f == nil || !core.IsFunc(f, "io", "TeeReader") || len(c.Call.Args) < 2 {
+			return false
+		}
+		for _, oc := range originCalls(c.Call.Args[1]) {
+			if g := core.Callee(oc); g != nil && g.Name() == "Hash" {
+				return true
+			}
+		}
+		return false
+	}
+	through := func(c *ssa.Call) []int {
+		if isHashTee(c) {
+			return nil
+		}
+		var idx []int
+		for i, a := range c.Call.Args {
+			if isReader(a.Type()) {
+				idx = append(idx, i)
+			}
+		}
+		return idx
+	}
+	n := 0
+	lab := map[*ssa.Function]labeler{}
+	for _, fn := range pkgFuncs(p, "mod") {
+		core.Calls(fn, func(c ssa.CallInstruction) {
+			f := core.Callee(c)
+			call, ok := c.(*ssa.Call)
+			if !ok || f == nil || f.Pkg() == nil || f.Pkg().Path() != modPath("pkg/archive") || f.Name() != "Compress" || len(call.Call.Args) == 0 {
+				return
+			}
+			arg := call.Call.Args[0]
+			direct, derived := false, false
+			for _, o := range core.Origins(arg, core.SliceOpts{}) {
+				if o.Kind == core.OCall && o.Call != nil && isHashTee(o.Call) {
+					direct = true
+				}
+			}
+			for _, o := range core.Origins(arg, core.SliceOpts{Through: through}) {
+				if o.Kind == core.OCall && o.Call != nil && isHashTee(o.Call) {
+					derived = true
+				}
+			}
+			if !derived {
+				return
+			}
+			n++
+			if lab[fn] == nil {
+				lab[fn] = labeler{}
+			}
+			r.Check(direct, rule, p.FuncName(fn), lab[fn].next("input of archive.Compress"), p.Pos(c.Pos()),
+				"the compressor's input comes from a digest tee through another stage: the digester sees the bytes before that stage, the layer consists of the bytes after it")
+		})
+	}
+	if n == 0 {
+		r.Held(rule, "mod", "input of archive.Compress", "", "no compressor input derives from a digest tee")
+	}
 }
